@@ -187,7 +187,7 @@ Definition run_summary : P (list Z) :=
             then [1] ++ oapp full
             else match all_summaries A latest annual secs with
                  | Ok sums =>
-                     let rerun := run_app A [] (number_from 0 (sums ++ rows_after latest rows)) in
+                     let rerun := run_app A [] (number_from 0 (through_csv sums ++ rows_after latest rows)) in
                      let ds0 := match secs with (_, (ds, _)) :: _ => ds | [] => [] end in
                      [0; obool (K1_of A latest annual ds0); obool (K2_of A latest annual ds0);
                       obool (K3_of latest ds0); obool (roundtrip_of A latest annual rows ds0);
